@@ -6,3 +6,5 @@ INVARIANT C09_SameAsFresh
 INVARIANT C09_ConvergesLikeFresh
 INVARIANT C09_NaNMask
 INVARIANT C09_ElementTablesSameAsFresh
+INVARIANT C09_FailedLikeFresh
+INVARIANT C09_FailsWithoutReference
